@@ -8,6 +8,7 @@ MARK = "fickle.MarkObject"
 
 def register(K):
     register_opcode_helpers(K)
+    register_opcode_infos(K)
     register_global_props(K)
     K.fieldsof("fickle.Stack", _stack="list[val]", opcode="val")
     K.fieldsof("fickle.ModuleBody", _list="list[val]", interpreter="fickle.Interpreter")
@@ -184,3 +185,39 @@ def register_global_props(K):
         K.contract(f"{cls}.module", params=f"self: {cls}", returns="str", pure=True, ensures=["result == SPLIT_SP(self.arg, 0)"])
         K.contract(f"{cls}.{second}", params=f"self: {cls}", returns="str", pure=True,
                    raises={"ValueError": "SPLIT_LEN(self.arg) < 2"}, ensures=["result == SPLIT_SP(self.arg, 1)"])
+
+
+def register_opcode_infos(K):
+    """pickletools.opcodes as static objects: each opcode class's `info` (set by Opcode.__init_subclass__) is the pickletools entry of its name;
+    the entries' name / code / arg.n come from the live import of the baseline interpreter's pickletools"""
+    import z3
+    from pyvc.sorts import V, Val, Int, Str, vref
+    from pyvc.state import static_ref, clsid
+
+    def info_ref(name):
+        return static_ref(f"opcodeinfo:{name}")
+    K.info_ref = info_ref
+
+    @K.background
+    def opcode_infos(eng, st):
+        facts = []
+        for name, d in eng.repo.live["pickletools"].items():
+            r = z3.IntVal(info_ref(name))
+            facts.append(st.read("cls", r) == clsid("pickletools.OpcodeInfo"))
+            facts.append(st.read("pickletools.OpcodeInfo.name", r, Str) == z3.StringVal(name))
+            facts.append(st.read("pickletools.OpcodeInfo.code", r, Str) == z3.StringVal(d["code"]))
+            if d["arg"] is None:
+                facts.append(st.read("pickletools.OpcodeInfo.arg", r, Val) == Val.N)
+            else:
+                a = z3.IntVal(static_ref(f"argdesc:{d['arg']['name']}"))
+                facts.append(st.read("pickletools.OpcodeInfo.arg", r, Val) == Val.R(a))
+                facts.append(st.read("cls", a) == clsid("pickletools.ArgumentDescriptor"))
+                facts.append(st.read("pickletools.ArgumentDescriptor.n", a, Int) == d["arg"]["n"])
+        return facts
+
+    def class_info(eng, st, cls):
+        name = eng.repo.const(cls, "name", None)
+        if name is None:
+            return None
+        return vref(info_ref(name), cls="pickletools.OpcodeInfo")
+    K.class_info = class_info
